@@ -34,6 +34,8 @@ and the PhyClone instance is built on them:
   orders, `pdf = 1/count`) the kernel "draw σ given the tree, sweep along σ" leaves `pOne` invariant
   on the complete trees of the data set.
 
+* `csmc_invariant_final_resample` — the same with a resampling step in front of the final draw, which is
+  what `AbstractSMCSampler.sample` does when there is a single data point.
 * `pg_csmc_exec`, `pg_step_exec`, `pg_invariant` — the executable model (`SMC.csmc`, `SMC.pgStep`:
   list-based finite distributions, slots as a list, `multinomial(N-1)` ancestors laid out in index
   order, weights starting at `1/N`, `lookupQ` for the proposal probability, the retained path rebuilt by
@@ -59,6 +61,21 @@ theorem csmc_invariant {X : Type} [Fintype X] [DecidableEq X] {m : ℕ}
 /-- non-vacuity: a root with two children (target masses 1 and 2, each proposed with probability
 1/2), one step, two particles — the hypotheses hold and the last level really has two supported
 states -/
+example : ASMC.ValidTo PG.exSpec 1 ∧ 0 < PG.exSpec.g 1 1 ∧ 0 < PG.exSpec.g 1 2 :=
+  ⟨PG.exSpec_valid, PG.exSpec_branches⟩
+
+/-- **Conditional SMC with a resampling step in front of the final draw** (`ASMC.kernelR`: after the
+`T` steps, "resample if the rule of step `T` fires" — slot 0 kept, the other slots drawn from the
+normalised weights, all weights reset to `u` — and only then the draw proportional to the weights) leaves
+the level-`T` target invariant as well, for every `T`.  This is the schedule of
+`AbstractSMCSampler.sample` when there is a single data point: the `_resample_swarm` that follows
+`_init_swarm` is then the last thing before the final draw. -/
+theorem csmc_invariant_final_resample {X : Type} [Fintype X] [DecidableEq X] {m : ℕ}
+    (sp : ASMC.Spec (m := m) X) (u : ℚ) (T : ℕ) (hv : ASMC.ValidTo sp T) (hu : 0 < u) (y : X) :
+    ∑ x, sp.g T x * ASMC.kernelR sp u T x y = sp.g T y :=
+  ASMC.csmc_invariant_final_resample hv hu y
+
+/-- non-vacuity: the branching three-state specification again -/
 example : ASMC.ValidTo PG.exSpec 1 ∧ 0 < PG.exSpec.g 1 1 ∧ 0 < PG.exSpec.g 1 2 :=
   ⟨PG.exSpec_valid, PG.exSpec_branches⟩
 
@@ -148,7 +165,9 @@ with data indices `D` (distinct, positive likelihoods, `α > 0`, outlier proposa
 threshold, any number `m + 1` of particles and any `u > 0`: with
 `PG.piD x = pOne x` on the complete trees of the data set (`PGSpec.finals`, 0 elsewhere),
 `PG.uOrd x σ = 1 / countCode x` on the compatible orders of `x` (0 elsewhere) and
-`PG.pgKernel x y = ∑ σ, uOrd x σ · ASMC.kernel (PG.spec σ κ) u |σ| x y` (any `κ > 0`), summing over all
+`PG.pgKernel x y = ∑ σ, uOrd x σ · ASMC.kernelX (PG.spec σ κ) u |σ| x y` (any `κ > 0`; `kernelX` is the
+kernel with the code's schedule: `ASMC.kernelR` when there is a single data point, `ASMC.kernel`
+otherwise), summing over all
 trees of the common finite state space `PGSpec.allStates c D`:  `∑ x, piD x · pgKernel x y = piD y`. -/
 theorem pg_invariant_abstract (dt : Data) (c : Proposal.Cfg) (D : List ℕ) (h : PG.HypD dt c D)
     (κ : ℚ) (hκ : 0 < κ) (θ : ℚ) (m : ℕ) (u : ℚ) (hu : 0 < u) (y : PG.St (PGSpec.allStates c D)) :
@@ -164,18 +183,19 @@ example : (∀ k, PG.HypD Props.C19.exData (PG.exCfg k) [0, 1]) ∧
 
 /-- **Stage 3a: the executable conditional SMC sweep is the abstract kernel.**  For an order `σ ≠ []`
 satisfying `PG.Hyp`, a start tree `x` in the last level along `σ`, `N = m + 1` particles, any threshold:
-`SMC.csmc` (first step from `N` empty particles of weight `1/N`, then for every further data point
+`SMC.csmc` (first step from `N` empty particles of weight `1/N`; with a single data point the swarm is
+then resampled if the rule fires; otherwise, for every further data point
 "resample if the relative ESS is at most `θ`" — slot 0 kept, the `N - 1` ancestors of
 `multinomial(N-1, W̄)` laid out in index order, weights reset to `1/N` — "and propagate" — slot 0 moved to
 `SMC.restrict x (σ.take (t+1))`, every other slot by `Proposal.sampler`, weights multiplied by
 `Proposal.incrWeight` with the proposal probability looked up in `Proposal.table`) followed by the
 final draw proportional to the weights has, for every test function `hh`, the expectation
-`∑ y, ASMC.kernel (PG.spec σ (1/N)) (1/N) |σ| x y · hh y`. -/
+`∑ y, ASMC.kernelX (PG.spec σ (1/N)) (1/N) |σ| x y · hh y`. -/
 theorem pg_csmc_exec (dt : Data) (c : Proposal.Cfg) (σ : List ℕ) (L : List T) (h : PG.Hyp dt c σ)
     (hL : ∀ x ∈ PGSpec.states c σ, x ∈ L) (θ : ℚ) (m : ℕ) (hne : σ ≠ []) (x : PG.St L)
     (hx : x.1 ∈ PGSpec.level c σ σ.length) (hh : T → ℚ) :
     Dist.E (Dist.bind (SMC.csmc (PG.runOf dt c m θ) x.1 σ) SMC.select) hh
-      = ∑ y : PG.St L, ASMC.kernel (PG.spec dt c σ (PG.uN m) L hL θ m) (PG.uN m) σ.length x y * hh y.1 := by
+      = ∑ y : PG.St L, ASMC.kernelX (PG.spec dt c σ (PG.uN m) L hL θ m) (PG.uN m) σ.length x y * hh y.1 := by
   obtain ⟨path, hp, hlast⟩ := PG.exists_pathOK (L := L) h.nodup h.big hL hx
   have := PG.csmc_E h (PG.inj_of_hyp h) hL θ m hp hne hh
   rwa [show path σ.length = x from Subtype.ext hlast] at this
